@@ -22,6 +22,21 @@ def dis(fn, inp, lib, model, note=""):
         print("  DISAGREE %s\n    input: %s\n    lib:   %s\n    model: %s\n    %s" % (fn, inp, lib, model, note))
 
 
+def crash(fn, inp, c, model):
+    """library crash (sanitizer report / ASSERT) on an admissible input"""
+    cnt(fn + '.CRASH')
+    frames = [l for l in c.text.splitlines() if l.startswith('#')][:4]
+    sig = (fn, c.kind, tuple(f.split(' in ')[-1] for f in frames))
+    if sig in _SEEN:
+        DIS.append((fn, inp, 'CRASH ' + c.kind, model, 'same signature as before'))
+        return
+    _SEEN.add(sig)
+    dis(fn, inp, 'CRASH %s\n      %s' % (c.kind, c.text[:900].replace('\n', '\n      ')), model)
+
+
+_SEEN = set()
+
+
 def hx(b):
     return b.hex() if isinstance(b, (bytes, bytearray)) else repr(b)
 
@@ -222,6 +237,250 @@ def xcheck_g12s(x, rnd, scale):
         s = r * d % q
         both(h, M.sig_enc(P, r, s), pub, 'R=O')
     print("g12s done:", {k: v for k, v in CNT.items() if k.startswith('g12s')})
+
+
+# =============================================================================
+# bels
+# =============================================================================
+
+def xcheck_bels(x, rnd, scale):
+    import bels as M
+    import gf2x
+    # standard keys
+    for ln in M.LENS:
+        for num in range(17):
+            m = x.out(ln)
+            err = x.call('belsStdM', m, ln, num)
+            if err != 0 or m.read() != M.std_m(ln, num):
+                dis('belsStdM', (ln, num), (err, m.read().hex()), M.std_m(ln, num).hex())
+            cnt('bels.std')
+        if x.call('belsStdM', x.out(ln), ln, 17) == 0:
+            dis('belsStdM', (ln, 17), 0, 'error expected (num <= 16)')
+    x.reset()
+
+    def valm(m):
+        mv = M.val_m(m)
+        try:
+            err = x.call('belsValM', x.buf(m), len(m))
+        except Crash as c:
+            crash('belsValM', 'm=%s' % hx(m), c, mv)
+            return mv
+        if (err == 0) != mv:
+            dis('belsValM', hx(m), err, mv)
+        cnt('bels.val')
+        return mv
+
+    pool = {ln: [] for ln in M.LENS}     # irreducible keys found on the way
+    for ln in M.LENS:
+        for _ in range(20 * scale):
+            valm(rnd.randbytes(ln))
+        valm(bytes(ln)); valm(b"\xff" * ln); valm(b"\x01" + bytes(ln - 1)); valm(b"\x03" + bytes(ln - 1))
+        # products of two irreducibles of degree l/2 (reducible, no small factors)
+        for _ in range(2):
+            while True:
+                a = rnd.getrandbits(4 * ln) | (1 << (4 * ln)) | 1
+                if gf2x.is_irred(a):
+                    break
+            while True:
+                b = rnd.getrandbits(4 * ln) | (1 << (4 * ln)) | 1
+                if gf2x.is_irred(b):
+                    break
+            f = gf2x.mul(a, b)
+            valm((f ^ (1 << (8 * ln))).to_bytes(ln, 'little'))
+            f = gf2x.mul(a, a)
+            valm((f ^ (1 << (8 * ln))).to_bytes(ln, 'little'))
+    x.reset()
+    # gen_m0
+    for ln in M.LENS:
+        for _ in range(2 * scale):
+            t = rnd.randbytes(ln * 8 * ln * 12)
+            try:
+                mm = M.gen_m0(ln, M.Tape(t))
+            except EOFError:
+                continue
+            tp = x.tape(t)
+            m0 = x.out(ln)
+            tm = M.Tape(t); M.gen_m0(ln, tm)
+            try:
+                err = x.call('belsGenM0', m0, ln, GEN, tp)
+            except Crash as c:
+                crash('belsGenM0', 'len=%d tape=random(seeded, %d octets)' % (ln, len(t)), c, (hx(mm), tm.pos))
+                pool[ln].append(mm)
+                continue
+            pos = int.from_bytes(tp.read(0, 8), 'little')
+            if err != 0 or m0.read() != mm or pos != tm.pos:
+                dis('belsGenM0', 'len=%d tape=random(%d)' % (ln, len(t)), (err, m0.read().hex(), pos), (hx(mm), tm.pos))
+            cnt('bels.genm0')
+            pool[ln].append(mm)
+            x.reset()
+    # gen_mi
+    for ln in M.LENS:
+        l = 8 * ln
+        for m0 in [M.std_m(ln, 0)] + pool[ln][:2]:
+            f0 = (1 << l) | int.from_bytes(m0, 'little')
+            special = [0, 1, 2, 3, 4, gf2x.powmod(2, 1 << (l // 2), f0) ^ 2]      # last: x^(2^(l/2)) + x lies in the subfield of degree l/2
+            # an element of the subfield GF(2^(l/2)) etc: u^(2^(l/2)) = u
+            tapes = []
+            for _ in range(4 * scale):
+                tapes.append(rnd.randbytes(3 * ln))
+            for sp in itertools.product(special, repeat=2):
+                if rnd.random() < 0.25:
+                    tapes.append(b"".join(v.to_bytes(ln, 'little') for v in sp) + rnd.randbytes(ln))
+            tapes.append(b"".join(v.to_bytes(ln, 'little') for v in (0, 1, 2)))
+            tapes.append(b"".join(v.to_bytes(ln, 'little') for v in (2, 2, 2)))
+            tapes.append(b"".join(v.to_bytes(ln, 'little') for v in (special[5], 1, 0)))
+            for t in tapes:
+                tp = x.tape(t)
+                mi = x.out(ln)
+                try:
+                    err = x.call('belsGenMi', mi, ln, x.buf(m0), GEN, tp)
+                    lib = (err, mi.read().hex() if err == 0 else None, int.from_bytes(tp.read(0, 8), 'little'))
+                except Crash as c:
+                    lib = ('CRASH', c.kind, str(c)[:300])
+                tm = M.Tape(t)
+                mm = M.gen_mi(ln, m0, tm)
+                mod = (0 if mm is not None else 'error', hx(mm) if mm else None, tm.pos)
+                if lib[1:] != mod[1:] or (lib[0] == 0) != (mm is not None):
+                    dis('belsGenMi', 'len=%d m0=%s tape=%s' % (ln, hx(m0), hx(t)), lib, mod)
+                cnt('bels.genmi')
+                if mm is not None and len(pool[ln]) < 12 and mm not in pool[ln]:
+                    valm(mm)
+                    pool[ln].append(mm)
+            x.reset()
+    # gen_mid
+    try:
+        import belt
+        belt.hash
+        have_belt = True
+    except Exception:
+        have_belt = False
+        print("  bels: belt.hash unavailable, gen_mid cross-check skipped")
+    if have_belt:
+        for ln in M.LENS:
+            for m0 in [M.std_m(ln, 0)] + pool[ln][:1]:
+                for _ in range(8 * scale):
+                    idl = rnd.choice([0, 1, 5, 31, 32, 33, rnd.randrange(200)])
+                    id = rnd.randbytes(idl)
+                    mid = x.out(ln)
+                    err = x.call('belsGenMid', mid, ln, x.buf(m0), x.buf(id), idl)
+                    mm = M.gen_mid(ln, m0, id)
+                    if (err, mid.read()) != (0, mm):
+                        dis('belsGenMid', 'len=%d m0=%s id=%s' % (ln, hx(m0), hx(id)), (err, mid.read().hex()), hx(mm))
+                    cnt('bels.genmid')
+                    if mm and mm not in pool[ln]:
+                        pool[ln].append(mm)
+                x.reset()
+    # share / recover
+    for ln in M.LENS:
+        for keyset in ('std', 'gen'):
+            if keyset == 'std':
+                m0 = M.std_m(ln, 0)
+                users = [M.std_m(ln, i) for i in range(1, 17)]
+            else:
+                ks = [k for k in pool[ln]]
+                rnd.shuffle(ks)
+                if len(ks) < 6:
+                    print("  bels: not enough generated keys for len", ln, len(ks))
+                    continue
+                m0, users = ks[0], ks[1:]
+            for count in range(1, 6):
+                for threshold in range(1, count + 1):
+                    mi = rnd.sample(users, count)
+                    sec = rnd.choice([rnd.randbytes(ln), bytes(ln), b"\xff" * ln])
+                    k = rnd.choice([rnd.randbytes((threshold - 1) * ln), bytes((threshold - 1) * ln), b"\xff" * ((threshold - 1) * ln)])
+                    si = x.out(count * ln)
+                    tp = x.tape(k + b"\xAA" * 8)
+                    err = x.call('belsShare', si, count, threshold, ln, x.buf(sec), x.buf(m0), x.buf(b"".join(mi)), GEN, tp)
+                    pos = int.from_bytes(tp.read(0, 8), 'little')
+                    sh = M.share(sec, count, threshold, m0, mi, k)
+                    if err != 0 or si.read() != b"".join(sh) or pos != len(k):
+                        dis('belsShare', 'len=%d n=%d t=%d s=%s m0=%s mi=%s k=%s' % (ln, count, threshold, hx(sec), hx(m0), [hx(m) for m in mi], hx(k)),
+                            (err, si.read().hex(), pos), ([hx(s) for s in sh], len(k)))
+                    cnt('bels.share')
+                    # recover: every subset size, random subsets and orders
+                    for size in range(1, count + 1):
+                        for _ in range(2):
+                            idx = rnd.sample(range(count), size)
+                            ssub = [sh[i] for i in idx]
+                            msub = [mi[i] for i in idx]
+                            out = x.out(ln)
+                            try:
+                                err = x.call('belsRecover', out, size, ln, x.buf(b"".join(ssub)), x.buf(m0), x.buf(b"".join(msub)))
+                                lib = (err, out.read().hex())
+                            except Crash as c:
+                                lib = ('CRASH', c.kind, str(c)[:300])
+                            mr = M.recover(ssub, ln, m0, msub)
+                            if lib != (0, mr.hex()):
+                                dis('belsRecover', 'len=%d size=%d si=%s m0=%s mi=%s' % (ln, size, [hx(s) for s in ssub], hx(m0), [hx(m) for m in msub]), lib, hx(mr))
+                            if size >= threshold and mr != sec:
+                                dis('bels.model', 'recover(>= threshold) != secret', '', hx(mr))
+                            cnt('bels.recover')
+                    x.reset()
+            # repeated / non-coprime user keys
+            for size in (2, 3, 4):
+                msub = rnd.sample(users, size - 1)
+                msub.insert(rnd.randrange(size), rnd.choice(msub))
+                ssub = [rnd.randbytes(ln) for _ in range(size)]
+                out = x.out(ln)
+                try:
+                    err = x.call('belsRecover', out, size, ln, x.buf(b"".join(ssub)), x.buf(m0), x.buf(b"".join(msub)))
+                except Crash as c:
+                    err = ('CRASH', c.kind, str(c)[:300])
+                mr = M.recover(ssub, ln, m0, msub)
+                if (err == 0) != (mr is not None) or not isinstance(err, int):
+                    dis('belsRecover', 'repeated key len=%d size=%d mi=%s' % (ln, size, [hx(m) for m in msub]), err, mr)
+                cnt('bels.recover_bad')
+            # random share values (not produced by share): recover is a plain CRT on any input
+            for size in (1, 2, 3, 5):
+                msub = rnd.sample(users, size)
+                ssub = [rnd.choice([rnd.randbytes(ln), b"\xff" * ln, bytes(ln)]) for _ in range(size)]
+                out = x.out(ln)
+                err = x.call('belsRecover', out, size, ln, x.buf(b"".join(ssub)), x.buf(m0), x.buf(b"".join(msub)))
+                mr = M.recover(ssub, ln, m0, msub)
+                if (err, out.read()) != (0, mr):
+                    dis('belsRecover', 'arbitrary shares len=%d si=%s mi=%s' % (ln, [hx(s) for s in ssub], [hx(m) for m in msub]), (err, out.read().hex()), hx(mr))
+                cnt('bels.recover')
+            x.reset()
+        # share2 / recover2 / share3
+        for count in range(1, 6):
+            for threshold in range(1, count + 1):
+                sec = rnd.randbytes(ln)
+                k = rnd.randbytes((threshold - 1) * ln)
+                si = x.out(count * (ln + 1))
+                err = x.call('belsShare2', si, count, threshold, ln, x.buf(sec), GEN, x.tape(k))
+                sh = M.share2(sec, count, threshold, k)
+                if (err, si.read()) != (0, b"".join(sh)):
+                    dis('belsShare2', 'len=%d n=%d t=%d s=%s k=%s' % (ln, count, threshold, hx(sec), hx(k)), (err, si.read().hex()), [hx(s) for s in sh])
+                cnt('bels.share2')
+                for size in range(1, count + 1):
+                    sub = rnd.sample(sh, size)
+                    out = x.out(ln)
+                    err = x.call('belsRecover2', out, size, ln, x.buf(b"".join(sub)))
+                    mr = M.recover2(sub, ln)
+                    if (err, out.read()) != (0, mr):
+                        dis('belsRecover2', 'len=%d si=%s' % (ln, [hx(s) for s in sub]), (err, out.read().hex()), hx(mr))
+                    cnt('bels.recover2')
+                # share3 (deterministic k, experimental): only recoverability through the model
+                si3 = x.out(count * (ln + 1))
+                err = x.call('belsShare3', si3, count, threshold, ln, x.buf(sec))
+                raw = si3.read()
+                sh3 = [raw[i * (ln + 1):(i + 1) * (ln + 1)] for i in range(count)]
+                sub = rnd.sample(sh3, threshold)
+                if err != 0 or M.recover2(sub, ln) != sec:
+                    dis('belsShare3', 'len=%d n=%d t=%d s=%s' % (ln, count, threshold, hx(sec)), (err, raw.hex()), 'model recover2 of threshold shares: %s' % hx(M.recover2(sub, ln)))
+                cnt('bels.share3')
+            x.reset()
+        # recover2 with bad numbers
+        for nums in ([0], [17], [1, 1], [2, 3, 2], [16, 1]):
+            sub = [bytes([n]) + rnd.randbytes(ln) for n in nums]
+            out = x.out(ln)
+            err = x.call('belsRecover2', out, len(sub), ln, x.buf(b"".join(sub)))
+            mr = M.recover2(sub, ln)
+            if (err == 0) != (mr is not None) or (mr is not None and out.read() != mr):
+                dis('belsRecover2', 'len=%d numbers=%s' % (ln, nums), err, hx(mr))
+            cnt('bels.recover2')
+        x.reset()
+    print("bels done:", {k: v for k, v in CNT.items() if k.startswith('bels')})
 
 
 # =============================================================================
